@@ -740,7 +740,7 @@ def settings_oracle(case_text, real_lines):
 
 @_robust(2)
 def conc_oracle(case_text, real_lines):
-    """tags: dangling (C04/C08), read_atomic (C05), quiescent_exact (C07), stuck (C15), nofail"""
+    """tags: dangling (C04/C08), read_atomic (C05), quiescent_exact (C07), stuck (C15), restart_conc (C02), nofail"""
     fails = []
     calls = {}                     # tid -> list of call token lists
     for l in case_text.splitlines():
@@ -783,6 +783,15 @@ def conc_oracle(case_text, real_lines):
             t = l.split(" -> ")
             a = t[0].split()
             results[(int(a[1][1:]), int(a[2]))] = t[1]
+    # C02 under concurrency (proofs/ConcDurable.v): after the threads have finished, dropping the handle
+    # and opening the directory again shows the same keys, contents, sizes, reference counts and statistics
+    rb = [l[len("R before "):] for l in real_lines if l.startswith("R before ")]
+    ra = [l[len("R reopen "):] for l in real_lines if l.startswith("R reopen ")]
+    if rb and ra:
+        if ra[0].startswith("FAILED"):
+            fails.append(("restart_conc", f"reopen after the concurrent run failed: {ra[0][:200]}"))
+        elif ra[0] != rb[0]:
+            fails.append(("restart_conc", f"state before dropping the handle `{rb[0][:300]}` differs from the state after reopening `{ra[0][:300]}`"))
     # C04: every visible index entry has its blob (except a blob the case itself turned into a directory)
     sabotaged = {HASH(parse_chunks(l.split()[1])) for l in case_text.splitlines() if l.startswith("undeletable ")}
     for (i, tid, frm, to, idx, cas) in steps:
